@@ -56,6 +56,7 @@ def register(reg):
 
     reg.spec("hv(value)", "value if isinstance(value, str) else str(value)")
     reg.spec("first_at(lst, key, p)", "lst[p][0].lower() == key.lower() and forall(0, p, lambda j: lst[j][0].lower() != key.lower())")
+    reg.spec("first_is(h, key, v)", "exists(0, len(h._list), lambda i: first_at(h._list, key, i) and h._list[i][1] == v)")
     # ---- Headers.set: replace the first pair with that key (any letter case), drop the later ones, or append
     reg.contract(
         "werkzeug/datastructures/headers.py:Headers.set", prop="C08,C05,C16", self_model=H, replay="method", modifies=["self._list"], raise_modifies=[],
@@ -70,15 +71,15 @@ def register(reg):
             "implies(not old(has_key(self, key)), len(self._list) == len(old(self._list)) + 1 and "
             "        self._list[len(self._list) - 1][0] == key and self._list[len(self._list) - 1][1] == hv(value) and "
             "        forall(0, len(old(self._list)), lambda i: self._list[i][0] == old(self._list)[i][0] and self._list[i][1] == old(self._list)[i][1]))",
-            # otherwise: the first such pair (position p, unique) is replaced in place, everything before it is untouched,
-            # no later pair has the key
+            # otherwise: the first such pair (position p) is replaced in place, everything before it is untouched, no later
+            # pair has the key
             "implies(old(has_key(self, key)), len(self._list) <= len(old(self._list)))",
             "implies(old(has_key(self, key)), exists(0, len(old(self._list)), lambda p: first_at(old(self._list), key, p) and "
-            "     p < len(self._list) and self._list[p][0] == key and self._list[p][1] == hv(value), witness=lambda: ghost_p))",
-            "implies(old(has_key(self, key)), exists(0, len(old(self._list)), lambda p: first_at(old(self._list), key, p) and "
-            "     forall(0, p, lambda j: self._list[j][0] == old(self._list)[j][0] and self._list[j][1] == old(self._list)[j][1]), witness=lambda: ghost_p))",
-            "implies(old(has_key(self, key)), exists(0, len(old(self._list)), lambda p: first_at(old(self._list), key, p) and "
+            "     p < len(self._list) and self._list[p][0] == key and self._list[p][1] == hv(value) and "
+            "     forall(0, p, lambda j: self._list[j][0] == old(self._list)[j][0] and self._list[j][1] == old(self._list)[j][1]) and "
             "     forall(p + 1, len(self._list), lambda j: hkey(self, j) != key.lower()), witness=lambda: ghost_p))",
+            # in both cases: the first pair with that key now carries the new value
+            "exists(0, len(self._list), lambda i: first_at(self._list, key, i) and self._list[i][1] == hv(value), witness=lambda: ghost_p)",
             # afterwards the key is present exactly once, with the new value
             "has_key(self, key)",
         ],
@@ -86,7 +87,8 @@ def register(reg):
         raises_ensures={"ValueError": ["len(self._list) == len(old(self._list))"]},
         loops={0: {"inv": ["forall(0, _i, lambda j: hkey(self, j) != ikey)", "ikey == key.lower()",
                            "self._list == old(self._list)", "len(self._list) > 0"]}},
-        ghost_after={"self._list[idx + 1:] = ...": [
+        ghost_after={"self._list.append((key, value_str))": ["ghost_p = len(self._list) - 1"],
+                     "self._list[idx + 1:] = ...": [
             "assert forall(idx + 1, len(self._list), lambda j: hkey(self, j) != ikey)",
             "assert forall(idx + 1, len(self._list), lambda j: clean(self._list[j][1]))",
             "assert first_at(old(self._list), key, idx)",
@@ -107,7 +109,7 @@ def register(reg):
         ensures=["not has_key(self, key)", "len(self._list) <= len(old(self._list))", "implies(old(I_h(self)), I_h(self))"],
     )
     SET_ENS = [
-        "I_h(self)", "has_key(self, key)",
+        "I_h(self)", "has_key(self, key)", "first_is(self, key, hv(value))",
         "implies(k2.lower() != key.lower() and not old(has_key(self, k2)), not has_key(self, k2))",
         "implies(not old(has_key(self, key)), forall(0, len(old(self._list)), lambda i: self._list[i][0] == old(self._list)[i][0] and "
         "        self._list[i][1] == old(self._list)[i][1]))",
